@@ -2515,6 +2515,27 @@ fn bulk_for<T: Cat + Clone + DecodeAll + DecodeLimit>(ctx: &mut Ctx, name: &'sta
 					d2.push_front(x.clone());
 				}
 				let logical: Vec<T> = d2.iter().cloned().collect();
+				// ... also when written piecemeal into an `io::Write` that takes a few bytes per call,
+				// through `dyn Output`, and through `using_encoded`
+				#[cfg(feature = "codec-std")]
+				{
+					let mut dr = Dribble { out: vec![], rng: Rng::new(n as u64 ^ front as u64) };
+					d2.encode_to(&mut dr);
+					let mut e: Vec<u8> = Vec::new();
+					{
+						let dynout: &mut dyn parity_scale_codec::Output = &mut e;
+						d2.encode_to(dynout);
+					}
+					let mut bw = std::io::BufWriter::with_capacity(5, Dribble { out: vec![], rng: Rng::new(7) });
+					d2.encode_to(&mut bw);
+					let via_buf = bw.into_inner().map(|d| d.out).unwrap_or_default();
+					let want = logical.encode();
+					if dr.out != want || e != want || via_buf != want || d2.using_encoded(|b| b.to_vec()) != want || d2.encoded_size() != want.len() {
+						let msg = format!("{}: VecDeque of {} elements split {}+{} over the ring buffer: encode_to into a short-writing io::Write gives {} bytes, via BufWriter {} bytes, dyn Output {} bytes; its contents encode to {} bytes", name, n, d2.as_slices().0.len(), d2.as_slices().1.len(), dr.out.len(), via_buf.len(), e.len(), want.len());
+						ctx.oracle_fail("C07", msg.clone());
+						ctx.oracle_fail("C06", msg);
+					}
+				}
 				if d2.encode() != logical.encode() {
 					let msg = format!("{}: VecDeque of {} elements split {}+{} over the ring buffer does not encode like its contents", name, n, d2.as_slices().0.len(), d2.as_slices().1.len());
 					ctx.oracle_fail("C07", msg.clone());
